@@ -3,10 +3,10 @@ import BfeVerif.C22.Proofs
   C22 — buffered I/O preserves the byte stream and counts it exactly.  Property theorems only.
 
   Reader: `ops.foldl Reader.apply (Reader.new cap src)` is the state after an arbitrary sequence of
-  Read / ReadByte / UnreadByte / Peek / ReadSlice / ReadBytes / ReadLine / WriteTo calls over an arbitrary
+  Read / ReadByte / UnreadByte / ReadRune / UnreadRune / Peek / ReadSlice / ReadBytes / ReadLine / WriteTo calls over an arbitrary
   scripted underlying reader `src` (any chunking, errors anywhere, (0,nil) reads).  The ghost field
   `consumed` is the list of bytes handed out and not un-read.
-  Writer: likewise for Write / WriteString / WriteByte / Flush / ReadFrom over an arbitrary scripted
+  Writer: likewise for Write / WriteString / WriteByte / WriteRune / Flush / ReadFrom over an arbitrary scripted
   underlying writer (short writes, errors); ghost `accepted` = bytes the Writer reported as taken,
   `out` = bytes the underlying writer received.
 
@@ -48,13 +48,45 @@ theorem C22_read_out {S : Bytes} (b : Reader) (n : Nat) (h : RInv S b) :
     (b.read n).1.consumed = b.consumed ++ (b.read n).2.1 := (inv_read b n h).2
 
 theorem C22_readByte_out {S : Bytes} (b : Reader) (h : RInv S b) :
-    b.readByte.1.consumed = b.consumed ++ b.readByte.2.1.toList := (inv_readByteLoop _ b h).2
+    b.readByte.1.consumed = b.consumed ++ b.readByte.2.1.toList := (inv_readByteLoop _ _ (inv_noRune h)).2
 
 theorem C22_readSlice_out {S : Bytes} (b : Reader) (d : UInt8) (h : RInv S b) :
     (b.readSlice d).1.consumed = b.consumed ++ (b.readSlice d).2.1 := (inv_readSlice b d h).2.1
 
 theorem C22_readBytes_out {S : Bytes} (b : Reader) (d : UInt8) (h : RInv S b) :
     (b.readBytes d).1.consumed = b.consumed ++ (b.readBytes d).2.1 := (inv_readBytes b d h).2
+
+/-- ReadRune consumes exactly `size` further bytes of the stream (1 ≤ size ≤ 4 for a non-empty result) -/
+theorem C22_readRune_out {S : Bytes} (b : Reader) (h : RInv S b) :
+    b.readRune.1.consumed.length = b.consumed.length + b.readRune.2.2.1 ∧
+      b.consumed <+: b.readRune.1.consumed := (inv_readRune b h).2
+
+/-- UnreadRune either fails with ErrInvalidUnreadRune and changes nothing, or moves exactly the
+    `lastRuneSize` last consumed bytes back and takes exactly that many off TotalRead -/
+theorem C22_unreadRune_out {S : Bytes} (b : Reader) (h : RInv S b) :
+    (b.unreadRune.2 ≠ 0 → b.unreadRune.1 = b ∧ b.unreadRune.2 = 8) ∧
+    (b.unreadRune.2 = 0 → ∃ k, b.lastRune = some k ∧ 1 ≤ k ∧ k ≤ b.consumed.length ∧
+        b.unreadRune.1.consumed = b.consumed.take (b.consumed.length - k) ∧
+        b.unreadRune.1.total + k = b.total ∧ b.unreadRune.1.cur.length = b.cur.length + k) := by
+  unfold Reader.unreadRune
+  cases hlr : b.lastRune with
+  | none => exact ⟨fun _ => ⟨rfl, rfl⟩, fun h0 => by simp at h0⟩
+  | some k =>
+    simp only
+    by_cases hpe : b.pre.isEmpty = true
+    · rw [if_pos hpe]; exact ⟨fun _ => ⟨rfl, rfl⟩, fun h0 => by simp at h0⟩
+    · rw [if_neg hpe]
+      refine ⟨fun h0 => absurd rfl h0, fun _ => ?_⟩
+      have hpne : b.pre ≠ [] := by simpa using hpe
+      rcases h.rune k hlr with h0 | ⟨hk1, hk2, t, ht⟩
+      · exact absurd h0 hpne
+      · have hclen : b.consumed.length = t.length + b.pre.length := by rw [← ht]; simp
+        have hcnt := h.cnt
+        refine ⟨k, rfl, hk1, by omega, rfl, ?_, ?_⟩
+        · simp only
+          have : b.total ≥ k := by omega
+          simp only [this, if_true]; omega
+        · simp only [List.length_append, List.length_drop]; omega
 
 /-- Peek consumes nothing and shows a prefix of what will be read next -/
 theorem C22_peek_out {S : Bytes} (b : Reader) (n : Nat) (h : RInv S b) :
@@ -69,7 +101,7 @@ theorem C22_writeTo_out {S : Bytes} (b : Reader) (ws : WScript) (h : RInv S b) :
 theorem C22_unreadByte_out (b : Reader) :
     (b.unreadByte.2 = 0 → b.unreadByte.1.consumed = b.consumed.dropLast ∧
         b.unreadByte.1.cur.length = b.cur.length + 1) ∧
-    (b.unreadByte.2 ≠ 0 → b.unreadByte.1 = b) := by
+    (b.unreadByte.2 ≠ 0 → b.unreadByte.1 = { b with lastRune := none }) := by
   unfold Reader.unreadByte
   split
   · rename_i hc _; simp [hc]
@@ -124,7 +156,8 @@ theorem C22_readLine_out {S : Bytes} (b : Reader) (h : RInv S b) (hnp : b.readLi
     and `TotalRead = 0`, so every theorem above applies afresh to the new stream -/
 theorem C22_reader_reset {S : Bytes} (b : Reader) (src : Script) (h : RInv S b) :
     RInv (srcBytes src) (b.reset src) ∧ (b.reset src).total = 0 ∧ (b.reset src).consumed = [] := by
-  refine ⟨⟨by simp [Reader.reset], rfl, ?_, h.capPos, by simp [Reader.reset], by simp [Reader.reset]⟩, rfl, rfl⟩
+  refine ⟨⟨by simp [Reader.reset], rfl, ?_, h.capPos, by simp [Reader.reset], by simp [Reader.reset],
+    by simp [Reader.reset]⟩, rfl, rfl⟩
   simp [Reader.reset]
 
 /-! ### loop fuel: the bounded loops of the model never run out of fuel
@@ -141,10 +174,11 @@ theorem C22_fuel_peek (b : Reader) (n : Nat) (hn : n ≤ b.cap) :
   intro f hf; exact peekLoop_stable f b n hn (by omega)
 
 theorem C22_fuel_readByte (b : Reader) (hcap : 0 < b.cap) :
-    ∀ f, b.fuel ≤ f → Reader.readByteLoop f b = b.readByte := by
-  have hm := mu_le_fuel b
-  refine stable_of_step (fun f => Reader.readByteLoop f b) b.fuel ?_
-  intro f hf; exact readByteLoop_stable f b hcap (by omega)
+    ∀ f, b.fuel ≤ f → Reader.readByteLoop f { b with lastRune := none } = b.readByte := by
+  have hm := mu_le_fuel { b with lastRune := none }
+  have hfu : Reader.fuel { b with lastRune := none } = b.fuel := rfl
+  refine stable_of_step (fun f => Reader.readByteLoop f { b with lastRune := none }) b.fuel ?_
+  intro f hf; exact readByteLoop_stable f _ hcap (by omega)
 
 theorem C22_fuel_readSlice (b : Reader) (d : UInt8) :
     ∀ f, b.fuel ≤ f → Reader.readSliceLoop f b d = Reader.readSliceLoop b.fuel b d := by
@@ -175,6 +209,11 @@ theorem C22_count_write (cap : Nat) (ws : WScript) (ops : List WOp) :
 /-- **Reset** (write side): unflushed data is dropped by design; history and counter restart at zero -/
 theorem C22_writer_reset (b : Writer) (ws : WScript) :
     WInv (b.reset ws) ∧ (b.reset ws).total = 0 ∧ (b.reset ws).buf = [] := ⟨⟨rfl, rfl⟩, rfl, rfl⟩
+
+/-- WriteRune keeps both Writer invariants (it is WriteByte, or an append of the UTF-8 encoding after an
+    optional flush, or WriteString of the encoding for a tiny buffer) -/
+theorem C22_writeRune_inv (b : Writer) (r : Nat) (h : WInv b) : WInv (b.writeRune r).1 :=
+  winv_writeRune b r h
 
 /-- `Write`/`WriteString` returning `n` took exactly the first `n` bytes offered -/
 theorem C22_write_takes_prefix (direct : Bool) (b : Writer) (p : Bytes) (h : WInv b) :
@@ -224,5 +263,19 @@ example :
     let b := [ROp.rb, .pk 16, .rd 20, .ub, .rl, .rd 16].foldl Reader.apply
       (Reader.new 16 [([1, 2, 3], 0), ([4, 5, 6, 7, 8, 9, 10, 11, 12, 13, 14, 15, 16, 17, 18, 19, 20], 0), ([21], 1)])
     b.total = b.consumed.length ∧ b.consumed ≠ [] := by decide
+
+/-- "é" (c3 a9) split over two underlying reads: ReadRune gives U+00E9 size 2, TotalRead 2; UnreadRune takes
+    both bytes back (TotalRead 0); a second UnreadRune is refused -/
+example :
+    let b0 := Reader.new 16 [([0xc3], 0), ([0xa9, 0x41], 0)]
+    let r1 := b0.readRune
+    let r2 := r1.1.unreadRune
+    (r1.2.1, r1.2.2.1, r1.1.total) = (0xE9, 2, 2) ∧ (r2.2, r2.1.total, r2.1.cur) = (0, 0, [0xc3, 0xa9, 0x41]) ∧
+      r2.1.unreadRune.2 = 8 := by decide
+
+/-- an invalid lead byte is consumed alone as U+FFFD; UnreadRune after a ReadByte is refused -/
+example :
+    let b0 := Reader.new 16 [([0xff, 0x41], 1)]
+    (b0.readRune.2.1, b0.readRune.2.2.1) = (0xFFFD, 1) ∧ b0.readRune.1.readByte.1.unreadRune.2 = 8 := by decide
 
 end BfeVerif.C22
